@@ -354,6 +354,12 @@ def shapes(tier):
     spec = text_layout("jcc:s0")
     spec["mods"] = [rep("b1", 0, 3, "selfloop")]
     out.append(("text/jcc:s0/%s" % mods_name(spec["mods"]), spec))
+    for mods in ([ins("d0", 1, "byte")], [dele("d0", 0, 1)], [ins("d1", 1, "byte")], [dele("d1", 0, 1)], [ins("d1", 0, "quad")],
+                 [rep("d0", 1, 2, "byte")], [ins("b1", 1, "byte")]):
+        spec = mixed_layout()
+        spec["sections"][1]["uninit_tail"] = True
+        spec["mods"] = copy.deepcopy(mods)
+        out.append(("uninit-tail/%s" % mods_name(mods), spec))
     for mods in ([dele("c0", 0, 2, proxy=True)], [dele("c0", 0, 2)], [ins("c0", 1, "mov")], [dele("c0", 0, 1)],
                  [dele("c0", 0, 2, proxy=True), dele("b1", 0, 3)], [dele("q0", 0, 2)], [dele("q0", 0, 2, proxy=True)],
                  [dele("q0", 1, 2)], [ins("q0", 1, "byte")]):
